@@ -45,6 +45,15 @@ CLAIMS["C17"] = dict(
     technique="table agreement over resolved enumerators + guard dominance on the CFG",
     design="DESIGN.md section 4, C17")
 
+CLAIMS["C09"] = dict(
+    text="Table agreement between the flag-name table and the SCRIPT_VERIFY_* enumerators (bijection, names, single bits, standard set "
+         "covered, whole-string lookup), polarity and rejection edges of the +/- parser, and a polarity/purity classification of every "
+         "read of the flag word in step-reachable code (each must be one of five restrictive forms F1-F5; the guarded regions are "
+         "proved check-only with the write-set engine). Monotonicity then follows under the stated assumption that a region without "
+         "observable writes cannot make a later operation succeed.",
+    technique="table agreement + flag-read polarity classification with interprocedural region purity",
+    design="DESIGN.md section 4, C09")
+
 NOT_YET = "check not built yet in this round (see DESIGN.md section 7 build order)"
 
 NA = {
